@@ -4,7 +4,7 @@ import re
 
 import z3
 
-from .. import oblig
+from .. import oblig, sym
 from ..oblig import Result
 
 FILTERS = []
@@ -120,4 +120,107 @@ def obligations(ctx):
                     return None
                 return z3.ULT(i, k)
             oblig.guarded(r, E, q, evs, phi, "remove_file reachable with id >= keep_from_log_id")
+    out += archive_write(ctx)
     return out
+
+
+def archive_write(ctx):
+    """WalArchive::write_to_file and WalArchiver::archive_log: an Ok result means a complete,
+    freshly written archive file"""
+    from .flushspec import Builder, ghost
+    res = []
+    ghosts = {"written": ghost(r"Write>::write_all$"), "synced": ghost(r"File::sync_all$"),
+              "created": ghost(r"File::create")}
+    b = Builder(ctx, "wal-wal_archive-{impl#1}-write_to_file.", "WalArchive::write_to_file", ghosts)
+    E, q = b.E, ctx.q
+    r = b.mk("B-4", "WalArchive::write_to_file returns Ok only after the compressed archive was written with write_all "
+                    "and fsynced, both successfully, into a file opened by File::create (truncating any pre-existing "
+                    "archive of the same name)")
+    res.append(b.results["B-4"])
+    if r:
+        if not E.returns:
+            r.status = "inconclusive"
+            r.notes.append("no return found")
+        r.nontrivial = True
+        for (node, reach, env) in E.returns:
+            ret = env.get(0)
+            d = E.discriminant(ret, E.fn.types.get(0, "")) if ret is not None else None
+            gs = [env.get("@written"), env.get("@synced"), env.get("@created")]
+            if d is None or not sym.is_term(d) or any(g is None for g in gs):
+                r.status = "inconclusive"
+                r.notes.append("return value / ghosts not resolved")
+                continue
+            tries = {}
+            for e2 in E.events:
+                if re.search(r"Try>::branch$", e2.func) and e2.args:
+                    m = re.match(r"^(File::create|Write::write_all|File::sync_all|WalArchive::to_compressed_bytes)#",
+                                 sym.describe(e2.args[0]))
+                    if m:
+                        tries[m.group(1)] = z3.BitVec(f"disc(try({sym.describe(e2.args[0])}))", 64) == 0
+            # File::create == OpenOptions write+create+truncate; an explicit OpenOptions chain with
+            # truncate(true) or create_new(true) is accepted as well
+            if "File::create" not in tries:
+                trunc = any(re.search(r"OpenOptions::(truncate|create_new)$", e2.func) and len(e2.args) > 1
+                            and sym.describe(e2.args[1]) == "True" for e2 in E.events)
+                for e2 in E.events:
+                    if trunc and re.search(r"Try>::branch$", e2.func) and e2.args and \
+                            sym.describe(e2.args[0]).startswith("OpenOptions::open#"):
+                        tries["File::create"] = z3.BitVec(f"disc(try({sym.describe(e2.args[0])}))", 64) == 0
+                        gs[2] = z3.BoolVal(True)
+            need = ("File::create", "Write::write_all", "File::sync_all")
+            if any(n not in tries for n in need):
+                good = z3.BoolVal(False)
+                r.notes.append("a step's Result is not propagated with `?` (or the file is not opened with File::create): "
+                               + ", ".join(n for n in need if n not in tries))
+            else:
+                good = z3.And(*gs, *tries.values())
+            rr, model = q.check(reach, d == 0, z3.Not(good), domain=E.domain)
+            r.queries += 1
+            if rr == z3.sat:
+                r.status = "violated"
+                r.witness = {"what": "write_to_file can return Ok without create(truncate) + write_all + sync_all all succeeding",
+                             "span": None, "call": "return", "path": E.path_of_model(model),
+                             "model": oblig.model_summary(E, model)}
+                break
+        # the file written is the one created at <archive_dir>/<generate_filename()>
+        if r.status == "holds":
+            wa = oblig.events(E, r"Write>::write_all$")
+            cr = oblig.events(E, r"File::create") + oblig.events(E, r"OpenOptions::open$")
+            if not wa or not cr:
+                r.status = "inconclusive"
+                r.notes.append("anchor not found: write_all / File::create")
+            else:
+                tr = E.trace(wa[0].args[0], wa[0].env, depth=6)
+                if not any("File::create" in x or "OpenOptions::open" in x for x in tr):
+                    r.status = "violated"
+                    r.witness = {"what": "the handle written is not the one returned by File::create", "span": None,
+                                 "call": wa[0].func[:100], "path": [], "model": {}, "trace": sorted(tr)[:10]}
+    b2 = Builder(ctx, "wal-wal_archiver-{impl#0}-archive_log.", "WalArchiver::archive_log",
+                 {"built": ghost(r"WalArchive::from_wal_file$"), "stored": ghost(r"WalArchive::write_to_file$")})
+    E2 = b2.E
+    r = b2.mk("B-5", "WalArchiver::archive_log returns Ok only if the archive was built from the WAL file and written "
+                     "to the archive directory, both successfully")
+    res.append(b2.results["B-5"])
+    if r:
+        r.nontrivial = True
+        for (node, reach, env) in E2.returns:
+            ret = env.get(0)
+            d = E2.discriminant(ret, E2.fn.types.get(0, "")) if ret is not None else None
+            gs = [env.get("@built"), env.get("@stored")]
+            if d is None or not sym.is_term(d) or any(g is None for g in gs):
+                r.status = "inconclusive"
+                r.notes.append("return value / ghosts not resolved")
+                continue
+            tries = [z3.BitVec(f"disc(try({sym.describe(e2.args[0])}))", 64) == 0 for e2 in E2.events
+                     if re.search(r"Try>::branch$", e2.func) and e2.args and
+                     re.match(r"^(WalArchive::from_wal_file|WalArchive::write_to_file)#", sym.describe(e2.args[0]))]
+            good = z3.And(*gs, *tries) if len(tries) >= 2 else z3.BoolVal(False)
+            rr, model = q.check(reach, d == 0, z3.Not(good), domain=E2.domain)
+            r.queries += 1
+            if rr == z3.sat:
+                r.status = "violated"
+                r.witness = {"what": "archive_log can return Ok without a successful from_wal_file + write_to_file",
+                             "span": None, "call": "return", "path": E2.path_of_model(model),
+                             "model": oblig.model_summary(E2, model)}
+                break
+    return res
